@@ -40,7 +40,12 @@ Inductive obs_new := ONErr (e : N) | ONOk (addr dlen dfp : N).   (* 0 too large,
 Inductive case :=
 | CNew (t : tab_t) (data : pl) (obs : obs_new)                  (* cac.New *)
 | CNewDS (t : tab_t) (d : pl) (obs : obs_new)                   (* cac.NewWithDataSpan *)
-| CValid (t : tab_t) (addr : list N) (d : pl) (obs : bool).     (* cac.Valid *)
+| CValid (t : tab_t) (addr : list N) (d : pl) (obs : bool)      (* cac.Valid *)
+(** pool-pressure stage: [workers] goroutines validating / creating chunks while all but [left]
+    trees of bmtpool are held; [obs] = every answer agreed with the independent oracle and nobody
+    hung.  By C04_pool_discipline + C03_concurrent_users the model's answer is [true] for every
+    interleaving. *)
+| CPressure (workers left : N) (obs : bool).
 
 Definition pack_new (r : res chunk_t) : obs_new :=
   match r with
@@ -62,11 +67,13 @@ Definition model_out (c : case) : out_t :=
   | CNew t data _ => ONew (pack_new (new (hh_tab t) chunk (mk data)))
   | CNewDS t d _ => ONew (pack_new (new_with_data_span (hh_tab t) chunk (mk d)))
   | CValid t addr d _ => OBool (valid (hh_tab t) chunk (addr, mk d))
+  | CPressure _ _ _ => OBool true
   end.
 Definition obs_out (c : case) : out_t :=
   match c with
   | CNew _ _ o | CNewDS _ _ o => ONew o
   | CValid _ _ _ b => OBool b
+  | CPressure _ _ b => OBool b
   end.
 Definition check_case (c : case) : bool :=
   match model_out c, obs_out c with
